@@ -155,6 +155,8 @@ def make_genfunc(prog, made, st, again=None):
             yield again
         elif post == "raise":
             raise mk(PostError)
+        elif post == "raisesai":
+            raise mk(StopAsyncIteration)
 
     def genfunc():
         return GenProxy(gen(), st)
